@@ -46,9 +46,16 @@ def _collapse_invariants(
         if hasattr(base, invariants_dunder):
             invariants.extend(getattr(base, invariants_dunder))
 
-    # Add invariants in the current namespace
+    # Add invariants in the current namespace.
+    #
+    # The namespace might have been collapsed already (*e.g.*, ``dataclasses.dataclass(slots=True)`` re-creates
+    # the class from the namespace of the original class). The inherited invariants must not be added twice.
     if invariants_dunder in namespace:
-        invariants.extend(namespace[invariants_dunder])
+        invariants.extend(
+            invariant
+            for invariant in namespace[invariants_dunder]
+            if not any(invariant is base_invariant for base_invariant in invariants)
+        )
 
     # Change the final invariants in the namespace.
     #
@@ -77,6 +84,14 @@ def _collapse_preconditions(
     :param func: function whose preconditions we are collapsing
     :return: collapsed sequence of precondition groups
     """
+    # The function might have been collapsed with the bases already (*e.g.*, ``dataclasses.dataclass(slots=True)``
+    # re-creates the class from the namespace of the original class). The inherited groups are not its own.
+    preconditions = [
+        group
+        for group in preconditions
+        if not any(group is base_group for base_group in base_preconditions)
+    ]
+
     if not base_preconditions and bases_have_func and preconditions:
         raise TypeError(
             (
@@ -134,7 +149,13 @@ def _collapse_postconditions(
     :param postconditions: postconditions of the function (before the collapse)
     :return: collapsed sequence of postconditions
     """
-    return base_postconditions + postconditions
+    # The function might have been collapsed with the bases already (*e.g.*, ``dataclasses.dataclass(slots=True)``
+    # re-creates the class from the namespace of the original class).
+    return base_postconditions + [
+        contract
+        for contract in postconditions
+        if not any(contract is base_contract for base_contract in base_postconditions)
+    ]
 
 
 def _base_provides(base: type, key: str) -> bool:
